@@ -627,6 +627,101 @@ def d6_conflicts_before_targets(chk: Check) -> None:
                "every target query follows _resolve_anchor_conflicts()")
 
 
+def d9_every_shared_name_is_judged(chk: Check) -> None:
+    """The conflict pass looks at *every* anchor name the two documents
+    share.  Which names are "only generated" cannot be told from their
+    spelling: ruamel keeps a scalar anchor named `id001` exactly like any
+    other.  A further filter on the names lets such a pair through
+    unjudged -- `stop` accepts the conflicting merge and the result
+    defines the anchor twice."""
+    prog = chk.prog
+    chk.rule("C10-D9", "the names handed to the conflict dispatch are all "
+             "names present in both anchor tables: the selection has one "
+             "filter, membership in the other table", floor=1)
+    fi = prog.func("Merger._resolve_anchor_conflicts")
+    tables = [c.args[1].id for c in walk_local(fi.node)
+              if isinstance(c, ast.Call) and
+              src(c.func).endswith("scan_for_anchors") and
+              len(c.args) == 2 and isinstance(c.args[1], ast.Name)]
+    if len(tables) != 2:
+        raise AnalysisError("anchor tables of the conflict pass not found")
+    loops = [l for l in fi.node.body if isinstance(l, ast.For)]
+    sel = None
+    for l in loops:
+        it = l.iter
+        if isinstance(it, (ast.ListComp, ast.GeneratorExp, ast.SetComp)) \
+                and len(it.generators) == 1 and \
+                src(it.generators[0].iter).split(".")[0] in tables:
+            sel = (l, it.generators[0])
+        elif src(it).split(".")[0] in tables:
+            sel = (l, None)
+    if sel is None:
+        return      # the rule's floor reports a lost subject
+    loop, gen = sel
+    text = "for {} in {}".format(src(loop.target), src(loop.iter)[:60])
+    if gen is None:
+        # iterating one table directly: the membership test must be the
+        # first statement guard -- accept a leading `if x not in other:
+        # continue`
+        first = loop.body[0] if loop.body else None
+        ok = isinstance(first, ast.If) and any(t in src(first.test)
+                                               for t in tables)
+        extra = []
+    else:
+        member = [i for i in gen.ifs if isinstance(i, ast.Compare) and
+                  len(i.ops) == 1 and isinstance(i.ops[0], ast.In) and
+                  src(i.comparators[0]) in tables]
+        extra = [i for i in gen.ifs if i not in member]
+        ok = len(member) == 1
+    if ok and not extra:
+        chk.ok("C10-D9", fi, loop, text, "every name present in both "
+               "tables")
+    else:
+        chk.fail("C10-D9", fi, (extra or [loop])[0], text,
+                 "shared names are filtered further (`{}`): a pair of "
+                 "same-name anchors that the filter drops is never "
+                 "compared, so no policy -- not even `stop` -- applies to "
+                 "it and the merged document defines the anchor twice"
+                 .format(src(extra[0]) if extra else "no membership test"))
+
+
+def d10_anchor_edits_cover_the_document(chk: Check) -> None:
+    """Replacing or renaming an anchor is a whole-document operation: every
+    alias of the old node, wherever it sits, must be switched, or the name
+    ends up on two different nodes.  Inside the merger the anchor editing
+    routines are therefore called from the conflict pass only, with a
+    document root (the merger's own data or the incoming document).  A call
+    from one of the recursive mergers passes the Hash it happens to be
+    working on; aliases in other branches keep the old node."""
+    prog = chk.prog
+    chk.rule("C10-D10", "Anchors.replace_anchor / rename_anchor are called "
+             "in merger.py only by _resolve_anchor_conflicts, on self.data "
+             "or on its right-hand document parameter", floor=3)
+    n = 0
+    for fi in prog.funcs_in("yamlpath/merger/merger.py"):
+        for c in walk_local(fi.node):
+            if not (isinstance(c, ast.Call) and src(c.func) in (
+                    "Anchors.replace_anchor", "Anchors.rename_anchor")):
+                continue
+            if len(c.args) == 1 and isinstance(c.args[0], ast.Starred):
+                continue    # a public pass-through kept for compatibility
+            n += 1
+            text = "{}: {}".format(fi.short, src(c)[:60])
+            arg = src(c.args[0]) if c.args else ""
+            roots = {"self.data"}
+            if fi.node.name == "_resolve_anchor_conflicts":
+                roots.add(fi.params()[1])
+            if fi.node.name == "_resolve_anchor_conflicts" and arg in roots:
+                chk.ok("C10-D10", fi, c, text, "on a document root")
+            else:
+                chk.fail("C10-D10", fi, c, text,
+                         "the anchor is edited in `{}` only, which is not a "
+                         "document root here: aliases outside it keep the "
+                         "old node, so two different nodes carry the anchor "
+                         "and the dumped document defines it twice".format(
+                             arg))
+
+
 def run(chk: Check) -> None:
     d1_policy(chk)
     d2_unique(chk)
@@ -635,6 +730,8 @@ def run(chk: Check) -> None:
     d3c_recursion_forwards(chk)
     d3d_leaf_is_registered(chk)
     d6_conflicts_before_targets(chk)
+    d9_every_shared_name_is_judged(chk)
+    d10_anchor_edits_cover_the_document(chk)
     d4_fresh_tables(chk)
     d5_no_live_mutation(chk)
     from rules.shared import late_binding_rule
